@@ -134,6 +134,69 @@ pub open spec fn vx_all_compatible<R: Registry>(m0: IMap<IdentifierRef<R>, VxCla
 '''
 
 
+RUN_PRELUDE = r'''
+// ---- unit stage, fork/join leg: externals of Stage::run / run_add_ons for (&mut T, U)
+/// R6: the type-level list of resource claims (`Resources::Claims`)
+#[verifier::external_body]
+#[verifier::accept_recursive_types(S)]
+pub struct VxResClaims<S> { p: PhantomData<S> }
+pub uninterp spec fn vx_res_compatible<S>(a: VxResClaims<S>, b: VxResClaims<S>) -> bool;
+pub uninterp spec fn vx_res_merged<S>(a: VxResClaims<S>, b: VxResClaims<S>) -> VxResClaims<S>;
+/// the claims of task T's resource views (`Resources::claims()` in the impl for T; K-res)
+pub uninterp spec fn vx_task_res_claims<S, T>() -> VxResClaims<S>;
+#[verifier::external_body]
+pub fn vx_resource_claims<S, T>() -> (c: VxResClaims<S>) ensures c == vx_task_res_claims::<S, T>() { unimplemented!() }
+impl<S> VxResClaims<S> {
+    /// `Claims::default()`: no resource claimed
+    pub uninterp spec fn none() -> VxResClaims<S>;
+    #[verifier::external_body]
+    pub fn default() -> (c: Self) ensures c == Self::none() { unimplemented!() }
+    #[verifier::external_body]
+    pub fn try_merge(self, other: &Self) -> (r: Option<Self>)
+        ensures r is Some == vx_res_compatible(self, *other), r is Some ==> r->0 == vx_res_merged(self, *other) { unimplemented!() }
+    #[verifier::external_body]
+    pub unsafe fn merge_unchecked(self, other: &Self) -> (r: Self)
+        requires vx_res_compatible(self, *other),
+        ensures r == vx_res_merged(self, *other) { unimplemented!() }
+}
+impl<R: Registry> VxClaimMap<R> {
+    #[verifier::external_body]
+    pub fn len(&self) -> (n: usize) { unimplemented!() }
+    #[verifier::external_body]
+    pub fn is_empty(&self) -> (b: bool) { unimplemented!() }
+}
+/// the task of this link of the stage (`self.0: &mut T`): counts how often it was run
+#[verifier::external_body]
+#[verifier::accept_recursive_types(T)]
+pub struct VxTask<T> { p: PhantomData<T> }
+impl<T> VxTask<T> {
+    pub uninterp spec fn runs(&self) -> nat;
+    #[verifier::external_body]
+    pub fn run<R: Registry, S>(&mut self, world: SendableWorld<R, S>) ensures final(self).runs() == old(self).runs() + 1 { unimplemented!() }
+}
+#[verifier::external_body]
+pub struct VxHasRun { _p: () }
+#[verifier::external_body]
+pub struct VxNextStages { _p: () }
+/// the rest of the stage (`self.1: U`): records the claim table and the resource claims it is handed
+#[verifier::external_body]
+#[verifier::accept_recursive_types(R)]
+#[verifier::accept_recursive_types(S)]
+pub struct VxRest<R: Registry, S> { p: PhantomData<(R, S)> }
+impl<R: Registry, S> VxRest<R, S> {
+    pub uninterp spec fn handed(&self) -> Seq<(IMap<IdentifierRef<R>, VxClaims<R>>, VxResClaims<S>)>;
+    #[verifier::external_body]
+    pub fn run(&mut self, world: SendableWorld<R, S>, borrowed_archetypes: VxClaimMap<R>, resource_claims: VxResClaims<S>, has_run: VxHasRun, next_stage: &mut VxNextStages) -> (r: VxHasRun)
+        ensures final(self).handed() == old(self).handed().push((borrowed_archetypes@, resource_claims)) { unimplemented!() }
+    #[verifier::external_body]
+    pub unsafe fn run_add_ons(&mut self, world: SendableWorld<R, S>, borrowed_archetypes: VxClaimMap<R>, resource_claims: VxResClaims<S>) -> (r: VxHasRun)
+        ensures final(self).handed() == old(self).handed().push((borrowed_archetypes@, resource_claims)) { unimplemented!() }
+}
+/// `(&mut T, U)`
+pub struct VxLink<R: Registry, S, T>(pub VxTask<T>, pub VxRest<R, S>);
+'''
+
+
 def rw_entry_idiom(body):
     """R18: the hash_map Entry idiom
            match M.entry(K) { hash_map::Entry::Occupied(mut entry) => { OCC } hash_map::Entry::Vacant(entry) => { VAC } }
@@ -236,5 +299,42 @@ def build():
                Hint("before", CHECKED_STEP, anchor=r"vx_i1 \+= 1;")],
         props=["C08"]))
     u.impl("pub mod stage", ["    use super::*;", f1, f2], trait="stage")
+
+    # ---- fork/join leg: Stage::run / run_add_ons of one link (&mut T, U) of a stage
+    u.text(RUN_PRELUDE)
+    LINK = r"^impl<\s*'a,\s*R,\s*Resources,\s*T,\s*U,\s*QueryIndices,\s*QueryIndicesList,[^>]*>\s*Stage<[^{]*?for \(&mut T, U\)"
+    TURBO = r"::<\s*R,\s*Resources,\s*T,\s*QueryIndices,\s*ResourceViewsIndices,\s*DisjointIndices,\s*EntryIndices,\s*EntryViewsFilterIndices,?\s*>"
+    RW = [
+        (r"query_archetype_identifiers_unchecked" + TURBO, "stage::query_archetype_identifiers_unchecked::<R, Resources, T>", "type-level index lists dropped from the turbofish"),
+        (r"query_archetype_identifiers" + TURBO, "stage::query_archetype_identifiers::<R, Resources, T>", "type-level index lists dropped from the turbofish", True),
+        (r"Resources::claims\(\)", "vx_resource_claims::<Resources, T>()", "R6: the claims of the task's resource views (type-level; K-res) -> assumed-contract call"),
+        (r"Resources::Claims::default\(\)", "VxResClaims::<Resources>::default()", "R6: the empty resource claim list", True),
+    ]
+    JOIN = (r"rayon::join\(\s*\|\|\s*\{(.*)\},\s*\|\|\s*self\.0\.run\(world\),?\s*\)\s*\.0",
+            r"{ let vx_first = {\1}; self.0.run(world); vx_first }",
+            "R21/A12: `rayon::join(|| A, || self.0.run(world)).0` -> `{ let r = A; self.0.run(world); r }`: join runs both closures to completion and returns both results; only the data flow (which claims are handed on, whether the task is run) is decided here, not the interleaving")
+    JOIN2 = (r"rayon::join\(\s*\|\|\s*\{(.*?)\},\s*\|\|\s*self\.0\.run\(world\),?\s*\)\s*\.0", JOIN[1], JOIN[2])
+    u.impl("impl<R: Registry, Resources, T> VxLink<R, Resources, T>", [
+        Fn(ST, LINK, "run", ret="r", vis="pub", generics="", where="",
+           params="&mut self, world: SendableWorld<R, Resources>, mut borrowed_archetypes: VxClaimMap<R>, resource_claims: VxResClaims<Resources>, has_run: (bool, VxHasRun), next_stage: &mut VxNextStages",
+           ret_type="VxHasRun",
+           rewrites=RW[:1] + RW[2:] + [JOIN],
+           requires=[("pre.safety_stage_tasks_compatible", "!has_run.0 ==> vx_all_compatible(borrowed_archetypes@, vx_task_claims::<R, Resources, T>(world), vx_task_claims::<R, Resources, T>(world).len() as int) && vx_res_compatible(resource_claims, vx_task_res_claims::<Resources, T>())")],
+           ensures=[("C08.stage.run_once", "final(self).0.runs() == old(self).0.runs() + (if has_run.0 { 0nat } else { 1nat })"),
+                    ("C08.stage.run_hands_on_archetype_claims", "final(self).1.handed().len() == old(self).1.handed().len() + 1 && old(self).1.handed() == final(self).1.handed().drop_last() && (if has_run.0 { final(self).1.handed().last().0 == borrowed_archetypes@ } else { vx_recorded(borrowed_archetypes@, final(self).1.handed().last().0, vx_task_claims::<R, Resources, T>(world), vx_task_claims::<R, Resources, T>(world).len() as int) })"),
+                    ("C15.stage.run_hands_on_resource_claims", "final(self).1.handed().last().1 == (if has_run.0 { resource_claims } else { vx_res_merged(resource_claims, vx_task_res_claims::<Resources, T>()) })")],
+           props=["C08", "C15"]),
+        Fn(ST, LINK, "run_add_ons", ret="r", vis="pub", generics="", where="",
+           params="&mut self, world: SendableWorld<R, Resources>, mut borrowed_archetypes: VxClaimMap<R>, resource_claims: VxResClaims<Resources>",
+           ret_type="(bool, VxHasRun)",
+           rewrites=[RW[1][:3], RW[2], JOIN2],
+           ensures=[("C08.stage.early_start_decision", "r.0 == (vx_res_compatible(vx_task_res_claims::<Resources, T>(), resource_claims) && vx_all_compatible(borrowed_archetypes@, vx_task_claims::<R, Resources, T>(world), vx_task_claims::<R, Resources, T>(world).len() as int))"),
+                    ("C08.stage.early_start_runs_once", "final(self).0.runs() == old(self).0.runs() + (if r.0 { 1nat } else { 0nat })"),
+                    ("C08.stage.add_ons_hand_on_archetype_claims", "final(self).1.handed().len() == old(self).1.handed().len() + 1 && old(self).1.handed() == final(self).1.handed().drop_last() && (if r.0 { vx_recorded(borrowed_archetypes@, final(self).1.handed().last().0, vx_task_claims::<R, Resources, T>(world), vx_task_claims::<R, Resources, T>(world).len() as int) } else { final(self).1.handed().last().0 == borrowed_archetypes@ })"),
+                    ("C15.stage.add_ons_hand_on_resource_claims", "r.0 ==> final(self).1.handed().last().1 == vx_res_merged(vx_task_res_claims::<Resources, T>(), resource_claims)"),
+                    ("C15.stage.add_ons_keep_resource_claims", "!r.0 ==> final(self).1.handed().last().1 == resource_claims || final(self).1.handed().last().1 == vx_res_merged(vx_task_res_claims::<Resources, T>(), resource_claims)")],
+           props=["C08", "C15"]),
+    ])
+    u.label_props.update({"C15": ["C15", "C08"]})
     u.label_props.update({"C08": ["C08"], "pre.safety_stage": ["C08"], "st1": ["C08"], "st2": ["C08"]})
     return u
